@@ -59,6 +59,8 @@ def gen_case(r):
             pad = r.choice([0, 0, 1, 1, 2, 3, 5, 7])
             n = r.below(NT)
             s["items"].append((pad, n, r.below(NT - n) if r.chance(1, 2) else 0))
+        # sh_addralign = 0 means "no alignment constraint", the same as 1 (gABI): patched into the object after assembling
+        s["align0"] = s["align"] == 1 and r.chance(1, 3)
         c["secs"].append(s)
     used = set()
     for j in range(r.range(0, 3)):
@@ -69,16 +71,21 @@ def gen_case(r):
         c["gots"].append((n, r.choice(["push", "mov"])))
     # some pointer slots go through a --defsym alias (`d_k_j = t_n + add`): still an address that must be relocated
     c["alias"] = sorted({(k, j) for k, s in enumerate(c["secs"]) for j in range(len(s["items"])) if r.chance(1, 4)})
+    # some targets are tentative (COMMON) definitions in the other object: hidden, byte-aligned, zero-filled storage in .bss
+    aliased = {c["secs"][k]["items"][j][1] for (k, j) in c["alias"]}
+    used_ns = sorted(({it[1] for s in c["secs"] for it in s["items"]} | {n for n, _ in c["gots"]}) - aliased)
+    c["commons"] = sorted(r.shuffle(used_ns)[: r.range(1, 3)]) if (used_ns and r.chance(1, 2)) else []
     return c
 
 
 def expected_sum(c):
     acc = 0
+    cm = set(c.get("commons", []))
     for s in c["secs"]:
         for (pad, n, add) in s["items"]:
-            acc = (acc * 31 + c["tbytes"][n + add]) & M64
+            acc = (acc * 31 + (0 if n in cm else c["tbytes"][n + add])) & M64
     for (n, form) in c["gots"]:
-        acc = (acc * 31 + c["tbytes"][n]) & M64
+        acc = (acc * 31 + (0 if n in cm else c["tbytes"][n])) & M64
     for k, s in enumerate(c["secs"]):
         if s["pre"]:
             acc = (acc * 31 + 0x11 + k) & M64
@@ -131,9 +138,10 @@ def render(c):
                 a.append(f"p_{k}_{j}: .quad t_{n}+{add}" if add else f"p_{k}_{j}: .quad t_{n}")
     fl = "a" if c["tsec"].startswith(".rodata") else "aw"
     a.append(f'    .section {c["tsec"]},"{fl}",@progbits')
+    cm = set(c.get("commons", []))
     for n in range(NT):
-        a.append(f"t_{n}: .byte {c['tbytes'][n]}")
-        if c.get("alias"):
+        a.append(f"{'tl' if n in cm else 't'}_{n}: .byte {c['tbytes'][n]}")
+        if c.get("alias") and n not in cm:
             a.append(f"    .globl ta_{n}\n    .hidden ta_{n}\n    .set ta_{n}, t_{n}")
     p = []
     for k, s in enumerate(c["secs"]):
@@ -142,7 +150,22 @@ def render(c):
             p.append(f'    .section {nm},"aw",@progbits')
             p.append(f"    .globl pad_{k}\n    .hidden pad_{k}")
             p.append(f"pad_{k}: .byte " + ",".join(str(0x11 + k) for _ in range(s["pre"])))
+    for n in sorted(cm):
+        a.append(f"    .hidden t_{n}")
+        p.append(f"    .comm t_{n},{NT},1\n    .hidden t_{n}")
     return "\n".join(a) + "\n", "\n".join(p) + "\n", drv
+
+
+def zero_addralign(obj, names):
+    """Set sh_addralign of the named sections of a relocatable object to 0."""
+    if not names:
+        return
+    e = Elf(obj)
+    with open(obj, "r+b") as f:
+        for sct in e.sections:
+            if sct.name in names:
+                f.seek(e.e_shoff + sct.index * 64 + 48)
+                f.write(b"\0" * 8)
 
 
 def link_args(c, out, objs):
@@ -303,6 +326,7 @@ def run(ctx):
             if pads_s.strip():
                 objs.append(lu.asm_obj(d, "pads", pads_s))
             objs.append(lu.asm_obj(d, "main", main_s))
+            zero_addralign(objs[-1], [secname(k, s_) for k, s_ in enumerate(c["secs"]) if s_.get("align0")])
             drv_o = lu.asm_obj(d, "drv", drv_s) if drv_s else None
         except RuntimeError as ex:
             ctx.count("gen", "assemble-failed")
